@@ -35,7 +35,7 @@ var emptyFrameSize = []byte{0, 0, 0, 0}
 // to grow unbounded.
 func NewTMemoryOutputBuffer(size uint) *TMemoryOutputBuffer {
 	buffer := &TMemoryOutputBuffer{size, thrift.NewTMemoryBuffer()}
-	buffer.Write(emptyFrameSize)
+	buffer.TMemoryBuffer.Write(emptyFrameSize)
 	return buffer
 }
 
@@ -83,7 +83,9 @@ func (f *TMemoryOutputBuffer) checkSize(size int) error {
 // Reset clears the buffer
 func (f *TMemoryOutputBuffer) Reset() {
 	f.TMemoryBuffer.Reset()
-	f.Write(emptyFrameSize)
+	// Write the frame size placeholder directly: going through the limit
+	// check would recurse forever for a limit smaller than the placeholder.
+	f.TMemoryBuffer.Write(emptyFrameSize)
 }
 
 // Bytes retrieves the framed contents of the buffer.
